@@ -213,6 +213,48 @@ def _shard_entry(a):
         return {"fatal": traceback.format_exc()}
 
 
+def _run_subprocess_shards(jobs):
+    """Each shard in a fresh interpreter with its own PYTHONHASHSEED (shard index)."""
+    import subprocess
+    import tempfile
+    procs = []
+    tmpdir = tempfile.mkdtemp(prefix="bbv-shards-")
+    try:
+        for job in jobs:
+            shard = job[3]
+            inp = os.path.join(tmpdir, "in%d.json" % shard)
+            outp = os.path.join(tmpdir, "out%d.json" % shard)
+            with open(inp, "w") as f:
+                json.dump(list(job), f)
+            env = dict(os.environ)
+            env["PYTHONHASHSEED"] = str(shard)
+            procs.append((subprocess.Popen([sys.executable, "-W", "ignore", "-m", "bbv.run", "--shard", inp, outp], env=env,
+                                           stdout=subprocess.PIPE, stderr=subprocess.STDOUT, text=True), outp))
+        results = []
+        for pr, outp in procs:
+            so, _ = pr.communicate()
+            if pr.returncode != 0 or not os.path.exists(outp):
+                results.append({"fatal": "shard subprocess failed (%s): %s" % (pr.returncode, so[-2000:])})
+            else:
+                r = json.load(open(outp))
+                results.append(r)
+        return results
+    finally:
+        import shutil
+        shutil.rmtree(tmpdir, ignore_errors=True)
+
+
+def _shard_main(inp, outp):
+    job = json.load(open(inp))
+    r = _shard_entry(tuple(job))
+    if "nontrivial" in r:
+        r["nontrivial"] = list(r["nontrivial"])
+    r.setdefault("notes", {})
+    with open(outp, "w") as f:
+        json.dump(r, f, default=str)
+    return 0
+
+
 # ------------------------------------------------------------------ known findings
 
 def load_known(pid):
@@ -260,7 +302,9 @@ def run_property(pid, tier, seed):
     stats = Stats()
     per = max(1, examples // nshards)
     jobs = [(modname, tier, seed, s, nshards, per, known_buckets) for s in range(nshards)]
-    if nshards == 1:
+    if getattr(mod, "SHARD_HASHSEEDS", False):
+        results = _run_subprocess_shards(jobs)
+    elif nshards == 1:
         results = [_shard_entry(jobs[0])]
     else:
         ctx = multiprocessing.get_context("fork")
@@ -355,7 +399,8 @@ def replay(path):
 
 
 def main(argv):
-    os.environ.setdefault("PYTHONHASHSEED", "0")
+    if len(argv) >= 3 and argv[0] == "--shard":
+        return _shard_main(argv[1], argv[2])
     if len(argv) >= 2 and argv[0] == "--replay":
         return replay(argv[1])
     if len(argv) < 2:
